@@ -865,4 +865,28 @@ example : writeFree (.call 0 Flags.all (.seq (.try_ (.call 1 Flags.all (.seq (.i
 example : (implRun [.set (1, 1) 7] (.call 0 Flags.all (.seq (.try_ (.call 1 Flags.all (.seq (.ifp 1 .skip) (.seq (.notify 2) .throw))) true (.notify 1) false .skip)
     (.call 1 Flags.all (.ifp 1 .skip))))).eff = (true, [.set (1, 1) 7], [(0, 1)]) := by decide
 
+/-! ### 9. Emitted notifications are immutable (finding native-notification-rewritten, fixed by 0aa93d2)
+
+Whatever runs later in the same execution, the notifications already in the list stay what they are — later code
+can only append, and a rollback removes a suffix. In the real VM every stored event is a read-only item: Notify
+deep-copies its argument as immutable, and since 0aa93d2 interop.Context.AddNotification does the same for the
+mutable arrays natives pass (this check found that System.Runtime.GetNotifications handed those out editable).
+The probe `notifprobe.go` of stream exec keeps trying the rewrite on every run. -/
+
+/-- for EVERY tree, context and state: the notifications present when a (sub)tree starts are a prefix of the list
+    when it ends normally or with an exception. -/
+theorem emitted_notifications_immutable (t : Tree) (x : Ctx) (s : ISt) :
+    match im t x s with
+    | .norm s' => s.ev <+: s'.ev
+    | .thrown s' => s.ev <+: s'.ev
+    | .fault _ => True := by
+  have := im_frame t x s
+  cases hr : im t x s with
+  | norm s' => rw [hr] at this; exact this.2
+  | thrown s' => rw [hr] at this; exact this.1.2
+  | fault s' => trivial
+
+example : im (.seq (.notify 2) (.call 1 Flags.all (.notify 3))) ⟨0, Flags.all, false, false⟩ ⟨[], [[]], [(0, 1)], false⟩ =
+    .norm ⟨[], [[]], [(0, 1), (0, 2), (1, 3)], false⟩ := rfl
+
 end NeoModel.Exec
